@@ -1070,7 +1070,7 @@ pub fn run(opts: &Opts) {
             ex.end_case();
         } else {
             let mut rng = Rng::new(opts.seed);
-            let cases = if opts.thorough() { 180 } else { 22 } * opts.scale;
+            let cases = if opts.thorough() { 120 } else { 22 } * opts.scale;
             for c in 0..cases {
                 let blocks = if opts.thorough() { rng.range(20, 160) } else { rng.range(20, 60) };
                 gen_case(&mut ex, &mut rng, c, blocks);
